@@ -145,36 +145,52 @@ type Embedding struct {
 	Name    string   `json:"name"`
 	II      []byte   `json:"ii"`
 	MM      []byte   `json:"mm"`
-	Entries []string `json:"entries"` // decode entry points that correspond to this container
-	Type    string   `json:"type"`    // expected image type: tiff | jpeg | png | cr3 | heif
+	Entries []string `json:"entries"`         // decode entry points that correspond to this container
+	Type    string   `json:"type"`            // expected image type: tiff | jpeg | png | cr3 | heif
+	Exact   bool     `json:"exact,omitempty"` // the container carries the block without trailing bytes
 }
 
 // Embed wraps f in every container of property C06. f must have been generated with Options.Split for the cr3-split variant.
 func Embed(rt *rapid.T, f *ExifFile) []Embedding {
 	var out []Embedding
-	out = append(out, Embedding{"tiff", f.Enc.II, f.Enc.MM, []string{"Decode", "DecodeTiff", "ExifParse"}, "tiff"})
-	if len(f.Enc.II) <= 65000 {
+	out = append(out, Embedding{Name: "tiff", II: f.Enc.II, MM: f.Enc.MM, Entries: []string{"Decode", "DecodeTiff", "ExifParse"}, Type: "tiff"})
+	// containers that state the block's length carry it exactly (no bytes after the last
+	// value) in about half of the cases: the block then ends on the last byte of a value
+	exact := rapid.Bool().Draw(rt, "embed.exactBlock")
+	cut := func(e *Encoded, b []byte) []byte {
+		if exact && e.Tail > 0 && e.Tail < len(b) {
+			return b[:len(b)-e.Tail]
+		}
+		return b
+	}
+	pII, pMM := cut(f.Enc, f.Enc.II), cut(f.Enc, f.Enc.MM)
+	if len(pII) <= 65000 {
 		w := JPEGWrap(rt)
-		out = append(out, Embedding{"jpeg", w(f.Enc.II), w(f.Enc.MM), []string{"Decode", "DecodeJPEG"}, "jpeg"})
+		out = append(out, Embedding{Name: "jpeg", II: w(pII), MM: w(pMM), Entries: []string{"Decode", "DecodeJPEG"}, Type: "jpeg"})
 	}
 	pw := PNGWrap(rt)
-	out = append(out, Embedding{"png", pw(f.Enc.II), pw(f.Enc.MM), []string{"DecodePng"}, "png"})
+	out = append(out, Embedding{Name: "png", II: pw(pII), MM: pw(pMM), Entries: []string{"DecodePng"}, Type: "png"})
 	cw := CR3Wrap(rt)
-	a, _ := cw([4][]byte{f.Enc.II, nil, nil, nil})
-	b, _ := cw([4][]byte{f.Enc.MM, nil, nil, nil})
-	out = append(out, Embedding{"cr3", a, b, []string{"Decode", "DecodeCR3"}, "cr3"})
+	a, _ := cw([4][]byte{pII, nil, nil, nil})
+	b, _ := cw([4][]byte{pMM, nil, nil, nil})
+	out = append(out, Embedding{Name: "cr3", II: a, MM: b, Entries: []string{"Decode", "DecodeCR3"}, Type: "cr3"})
 	if f.Split[0] != nil {
 		var ii, mm [4][]byte
 		for i, e := range f.Split {
 			if e != nil {
-				ii[i], mm[i] = e.II, e.MM
+				ii[i], mm[i] = cut(e, e.II), cut(e, e.MM)
 			}
 		}
 		a, _ := cw(ii)
 		b, _ := cw(mm)
-		out = append(out, Embedding{"cr3-split", a, b, []string{"Decode", "DecodeCR3"}, "cr3"})
+		out = append(out, Embedding{Name: "cr3-split", II: a, MM: b, Entries: []string{"Decode", "DecodeCR3"}, Type: "cr3"})
 	}
 	hw := HEIFWrap(rt)
-	out = append(out, Embedding{"heif", hw(f.Enc.II), hw(f.Enc.MM), []string{"Decode", "DecodeHeif"}, "heif"})
+	out = append(out, Embedding{Name: "heif", II: hw(pII), MM: hw(pMM), Entries: []string{"Decode", "DecodeHeif"}, Type: "heif"})
+	if exact {
+		for i := range out[1:] {
+			out[i+1].Exact = true
+		}
+	}
 	return out
 }
